@@ -77,7 +77,8 @@ class RunContext(TaskContext):
         # check for error in event handling
         exception, _ = self.session.event_manager.get_pending_failure()
         if exception is not None:
-            return str(exception)
+            # an exception without message must not be taken for "no reason to skip"
+            return str(exception) or exception.__class__.__name__
 
         # check for test session abort
         if self._aborted_session:
